@@ -148,6 +148,7 @@ type RigS struct {
 	opWrites  int
 	rmwOpen   map[string]int
 	rejCount  map[string]int
+	bgPaused  map[int]bool   // downstreams on which a task was paused by a failure in this incarnation
 	delivered map[string]int // "target|collection|shard" -> end message id of the last pack the CURRENT registration of that stream was given
 	mu        sync.Mutex
 
